@@ -216,9 +216,30 @@ func implStreamEncode(v *wv.V) string {
 	return "ok " + hx(buf.Bytes())
 }
 
+// eofReaderAt returns io.EOF together with the bytes of a read that ends exactly at the end of the
+// input (io.ReaderAt allows either nil or EOF there; bytes.Reader chooses nil).
+type eofReaderAt struct{ b []byte }
+
+func (e eofReaderAt) ReadAt(p []byte, off int64) (int, error) {
+	if off < 0 || off > int64(len(e.b)) {
+		return 0, io.EOF
+	}
+	n := copy(p, e.b[off:])
+	if int(off)+n == len(e.b) {
+		return n, io.EOF
+	}
+	return n, nil
+}
+
+var lazyAlt int
+
 func implLazy(t byte, b []byte) (res string, val *wv.V, consumed int64) {
 	p := safely(func() {
-		rd := binary.NewReader(bytes.NewReader(b))
+		var ra io.ReaderAt = bytes.NewReader(b)
+		if lazyAlt++; lazyAlt%2 == 0 {
+			ra = eofReaderAt{b}
+		}
+		rd := binary.NewReader(ra)
 		w, off, err := rd.ReadValue(wire.Type(t), 0)
 		if err != nil {
 			res = "err"
@@ -472,8 +493,56 @@ func runC02(c *checker, r *rng.R) {
 		c02Value(c, l, "two-large-binaries")
 		c.flush()
 	}
+	// long containers of fixed-width items (payloads of several KiB: whatever block size a reader
+	// works with, records straddle its boundaries), and binaries around small buffer sizes
+	{
+		fixed := []byte{wv.TBool, wv.TI8, wv.TI16, wv.TI32, wv.TI64, wv.TDouble}
+		scalar := func(t byte, i int) *wv.V {
+			u := uint64(i)*0x9e3779b97f4a7c15 + 1
+			switch t {
+			case wv.TBool:
+				u = uint64(i) & 1
+			case wv.TI8:
+				u &= 0xff
+			case wv.TI16:
+				u &= 0xffff
+			case wv.TI32:
+				u &= 0xffffffff
+			case wv.TDouble:
+				u = uint64(0x4000000000000000) + uint64(i) // finite, distinct
+			}
+			return &wv.V{T: t, U: u}
+		}
+		nBig := 10
+		if *tier == "thorough" {
+			nBig = 60
+		}
+		for i := 0; i < nBig; i++ {
+			kt, vt := fixed[r.Intn(len(fixed))], fixed[r.Intn(len(fixed))]
+			n := 300 + r.Intn(1500)
+			m := &wv.V{T: wv.TMap, KT: kt, ET: vt}
+			for j := 0; j < n; j++ {
+				m.Items = append(m.Items, scalar(kt, j), scalar(vt, j+7))
+			}
+			c02Value(c, m, "long-fixed-width-container")
+			et := fixed[r.Intn(len(fixed))]
+			l := &wv.V{T: []byte{wv.TList, wv.TSet}[r.Intn(2)], ET: et}
+			for j, n := 0, 600+r.Intn(5000); j < n; j++ {
+				l.Items = append(l.Items, scalar(et, j))
+			}
+			c02Value(c, &wv.V{T: wv.TStruct, Fields: []wv.Field{{ID: 1, V: l}, {ID: 2, V: m}, {ID: 3, V: scalar(wv.TI32, i)}}}, "long-fixed-width-container")
+			c.flush()
+		}
+		for n := 120; n <= 300; n++ { // every length around typical scratch-buffer sizes
+			b := r.Bytes(n)
+			c02Value(c, &wv.V{T: wv.TStruct, Fields: []wv.Field{{ID: 1, V: &wv.V{T: wv.TBinary, Bin: b}}, {ID: 2, V: scalar(wv.TI64, n)}}}, "binary-lengths-120-300")
+		}
+		for _, n := range []int{511, 512, 513, 1023, 1024, 1025, 4095, 4096, 4097, 8191, 8192, 8193, 65535, 65536, 65537} {
+			c02Value(c, &wv.V{T: wv.TStruct, Fields: []wv.Field{{ID: 1, V: &wv.V{T: wv.TBinary, Bin: r.Bytes(n)}}, {ID: 2, V: scalar(wv.TI64, n)}}}, "binary-lengths-power-of-two")
+		}
+	}
 	c.flush()
-	c.rep.Rule = "values: bounded-exhaustive enumeration of small shapes + random typed values (all 11 types, nested, raw element-type bytes on empty containers, extreme ints, special doubles); non-trivial = has more than one node or is a double/binary; distinct by canonical text"
+	c.rep.Rule = "values: bounded-exhaustive enumeration of small shapes + random typed values (all 11 types, nested, raw element-type bytes on empty containers, extreme ints, special doubles) + binaries at the 1 MiB threshold, two over-threshold binaries per value, long maps/lists/sets of fixed-width items (300–6000 entries), every binary length 120–300 and around powers of two up to 64 KiB; random-access decode through bytes.Reader and through a ReaderAt that returns io.EOF together with the last bytes; stream reads under rotating segmentation, every other reader returning its last byte together with io.EOF; non-trivial = has more than one node or is a double/binary; distinct by canonical text"
 }
 
 // ---- C03 ----
